@@ -284,6 +284,42 @@ func checkC02(p *Prog, r *Report) {
 		}
 		r.Cond(okAll, "C02/TRAILER", funcKey(fn)+" trailer", p.Pos(fn.Pos()), why)
 	}
+	// ---- WINDOW-PRESERVED ----
+	r.Rule("C02/WINDOW-PRESERVED", "in (*mapStruct).ptr a newly allocated window replaces ms.window only after copy(new, ms.window): the overlap-reuse step below keeps bytes of the old window instead of re-reading them", 1)
+	ptrFn := anchorFunc(p, r, pkgSender, "mapStruct", "ptr")
+	winF := p.Field(pkgSender, "mapStruct", "window")
+	if ptrFn != nil && winF != nil {
+		n := 0
+		for _, b := range ptrFn.Blocks {
+			for _, in := range b.Instrs {
+				st, ok := in.(*ssa.Store)
+				if !ok {
+					continue
+				}
+				if _, f := fieldOfAddr(st.Addr); f != winF {
+					continue
+				}
+				mk, isMk := st.Val.(*ssa.MakeSlice)
+				if !isMk {
+					continue
+				}
+				n++
+				copied := false
+				allCalls(ptrFn, func(c ssa.CallInstruction) {
+					if bi, ok := c.Common().Value.(*ssa.Builtin); ok && bi.Name() == "copy" {
+						a := c.Common().Args
+						if a[0] == ssa.Value(mk) && isFieldLoad(a[1], winF) && InstrDominates(c, st) {
+							copied = true
+						}
+					}
+				})
+				r.Cond(copied, "C02/WINDOW-PRESERVED", "mapStruct.ptr window reallocation", p.Pos(st.Pos()), "the enlarged window is installed without the old contents; reused bytes become zeros that are sent and hashed")
+			}
+		}
+		if n == 0 {
+			r.Unk("C02/WINDOW-PRESERVED", "mapStruct.ptr window reallocation", p.Pos(ptrFn.Pos()), "no `ms.window = make(...)` found: the window management changed shape, re-read it")
+		}
+	}
 	r.Trust("MD4 collision resistance (a strong match is taken as content equality, as in rsync)")
 	r.Uncovered("offset/length arithmetic of the window (mapStruct), the receiver's token*BlockLength arithmetic, chunking, rolling-checksum algebra: value-level, out of reach of structural rules")
 }
